@@ -147,6 +147,11 @@ pub const POSITIONS: &[Pos] = &[
     Pos { name: "variant-named-field-as-tuple", host: "#[map(T)]\nenum S { A, #[type_hint(as ())] C { #[map(0, { __E__ })] x: i32 } }", tilde_ok: true, head: None, from: Some(("value", "f0")), into: Some(("self", "x")), existing: None },
     Pos { name: "parent-nested-rename", host: "#[map(T)]\n#[into_existing(T)]\nstruct S { #[parent([map(zz, { __E__ })] pa, pb)] p: P, b: i32 }", tilde_ok: true, head: None, from: Some(("value", "value . zz")), into: Some(("self", "self . p . pa")), existing: Some(("self", "self . p . pa")) },
     Pos { name: "variant-ghosts", host: "#[map(T)]\nenum S { A, #[ghosts(g: { __E__ })] C { x: i32 } }", tilde_ok: false, head: None, from: None, into: Some(("self", "")), existing: None },
+    // (round 8: an impl written in post-init form because of a bare #[parent]; a nested parent below the first level; a
+    //  fallible member instruction)
+    Pos { name: "member-next-to-bare-parent", host: "#[map(T)]\n#[into_existing(T)]\nstruct S { #[map({ __E__ })] a: i32, #[parent] p: P }", tilde_ok: true, head: None, from: Some(("value", "value . a")), into: Some(("self", "self . a")), existing: Some(("self", "self . a")) },
+    Pos { name: "parent-nested-2", host: "#[map(T)]\n#[into_existing(T)]\nstruct S { #[parent(pb, [parent([map({ __E__ })] pa)] q: Q)] p: P, b: i32 }", tilde_ok: true, head: None, from: Some(("value", "value . pa")), into: Some(("self", "self . p . q . pa")), existing: Some(("self", "self . p . q . pa")) },
+    Pos { name: "member-try_map", host: "#[try_map(T, Er)]\n#[try_into_existing(T, Er)]\nstruct S { #[try_map({ __E__ })] a: i32, b: i32 }", tilde_ok: true, head: None, from: Some(("value", "value . a")), into: Some(("self", "self . a")), existing: Some(("self", "self . a")) },
 ];
 
 pub struct Subst {
@@ -294,7 +299,7 @@ fn check_case(space: &str, c: &Case, choices: &[u32], rep: &Report) {
 
 pub fn run(tier: &str) -> i32 {
     let rep = Report::new("C10", tier, "model_checking");
-    rep.set_rule("every token tree over the alphabet {~, @, ident, int, \"~@\", '~', b'@', lifetime, +, &&, ..=, <<=, ->, |x|, m!, ., ::<, ,} with groups (), [], {}, None-delimited (built as real proc_macro2 groups), nested, up to the stated length/depth, in each of 24 accepting positions (member map / rename / from-only / into-only / into_existing-only / child path / braceless `~..` and `@..` forms / tuple member / ghost / struct ghosts / vars / update / return (into, into_existing) / nested [map] inside #[parent] / enum default case / enum ghosts / variant expression (from, into) / variant ghost / tuple and named payload fields / variant ghosts); an independent substitution over the flattened atom list (`@` -> value|self, `~` -> the documented field path for that position and direction) must occur as a contiguous subsequence of the flattened impl in every impl the instruction applies to, and a marker identifier must not occur in impls it does not apply to. states = distinct inputs; non-trivial = expressions containing ~ or @");
+    rep.set_rule("every token tree over the alphabet {~, @, ident, int, \"~@\", '~', b'@', lifetime, +, &&, ..=, <<=, ->, |x|, m!, ., ::<, ,} with groups (), [], {}, None-delimited (built as real proc_macro2 groups), nested, up to the stated length/depth, in each of 33 accepting positions (member map / rename / from-only / into-only / into_existing-only / child path / braceless `~..` and `@..` forms / tuple member / ghost / struct ghosts / vars / update / return (into, into_existing) / nested [map] inside #[parent] / enum default case / enum ghosts / variant expression (from, into) / variant ghost / tuple and named payload fields / variant ghosts); an independent substitution over the flattened atom list (`@` -> value|self, `~` -> the documented field path for that position and direction) must occur as a contiguous subsequence of the flattened impl in every impl the instruction applies to, and a marker identifier must not occur in impls it does not apply to. states = distinct inputs; non-trivial = expressions containing ~ or @");
     rep.assume("`~` is only generated where the README allows it (member-level instructions); None-delimited groups are transparent; what `~` stands for per position is transcribed from README 'Inline expressions' and the C10 statement");
     let caps = Caps::from_env(if tier == "quick" { 120.0 } else { 1500.0 });
     if tier == "quick" {
